@@ -147,17 +147,6 @@ def self_relock(prog):
     return False
 
 
-def diagnosis_outcomes(env, text, prog):
-    with env["lock"]:
-        if text in env["diag"]:
-            return env["diag"][text]
-    r = cex_ref.Ref(prog, relock_by_owner_succeeds=True).explore(max_states=100000)
-    out = (r["end_n"] | r["deadlock_n"]) if r["complete"] else None
-    with env["lock"]:
-        env["diag"][text] = out
-    return out
-
-
 def classify_crash(prog, nat):
     """Stable feature of an abnormal exit, for the key."""
     err = nat["err"] or ""
@@ -222,15 +211,14 @@ def evaluate(ctx, env, item, corrupt=None):
         key = "C14:abnormal-exit:%s" % classify_crash(prog, nat)
     else:
         key = "C14:%s:%s" % (rule, fam_key(prog))
-        if nat["final"] is not None and self_relock(prog):
-            # diagnosis only: is this outcome the one of the known "the owner locks its non-recursive mutex again and is
-            # not blocked" defect?  (reachable in the variant semantics that reproduces exactly that defect)
-            alt = diagnosis_outcomes(env, text, prog)
-            if alt is not None and nat["final"] in alt and (nat["deadlock"] is None or nat["deadlock"] == nat["final"]):
-                key = "C14:mutex-relock-by-owner-does-not-block"
-                what = "an actor locks a non-recursive mutex it already owns and goes on instead of deadlocking with " \
-                       "itself (Mutex.hpp: 'if an actor tries to lock the same object twice, it deadlocks with itself'; " \
-                       "simgrid-mc does block it): " + what
+    if "RELOCK " in (nat["out"] or "") and (rule != "abnormal-exit" or nat["rc"] in (134, -6)):
+        # The run went through "the owner locks its non-recursive mutex again" and came back from it (a run that blocks
+        # there, as documented, ends in a reachable deadlock and never gets here): known defect; from then on the kernel
+        # holds a stale queued acquisition of the owner, so whatever follows is attributed to it.
+        key = "C14:mutex-relock-by-owner-does-not-block"
+        what = "an actor locks a non-recursive mutex it already owns and goes on instead of deadlocking with itself " \
+               "(Mutex.hpp: 'if an actor tries to lock the same object twice, it deadlocks with itself'; simgrid-mc does " \
+               "block it): " + what
     ctx.violation(key, "%s\nprogram (%s):\n%sperturbation: %s" % (what, name, text, var),
                   {"spec": text, "variant": var, "name": name, "stdout": _short(nat["out"]), "stderr": _short(nat["err"]),
                    "cmd": nat["cmd"], "env": nat["env"]})
@@ -273,7 +261,7 @@ EXTRA_DIRECTED = [
 
 def make_env(ctx):
     env = {"vm": {"hooks": mc_cex.binaries("hooks")[0]}, "wd": tempfile.mkdtemp(prefix="verif-C14-"), "timeout": 120,
-           "lock": threading.Lock(), "diag": {}}
+           "lock": threading.Lock()}
     try:
         env["vm"]["asan"] = build.harness("mc_vm_cex.cpp", flavour="asan", internal=True)
     except build.BuildError:
